@@ -37,13 +37,13 @@ theorem C09_C10_finalize_reads (st : PhSt) (hb : TextMark.Base st) (t : Tree) (h
 as elements. -/
 theorem C09_differ_script_output (bis : Dmp.Bisect) (qn : QName) (cfg : Cfg) (L R : Tree) (M : List (Nat × Nat))
     (fresh : Nat) (script : List Action) (final : Tree) (ft : List Str) (w : Bool)
-    (hclean : CleanT L) (hshort : Names.AllP ShortP L) (htag : Names.AllP TagOK L) (hL : (Tree.ids L).Nodup)
+    (hclean : CleanT L) (hshort : Names.AllP (ShortP w) L) (htag : Names.AllP TagOK L) (hL : (Tree.ids L).Nodup)
     (hRn : (Tree.ids R).Nodup) (hdisj : ∀ i ∈ Tree.ids L, i ∉ Tree.ids R)
     (hfL : ∀ i ∈ Tree.ids L, i < fresh) (hfR : ∀ i ∈ Tree.ids R, i < fresh) (hM : Chw.GoodMatching L R M)
     (hR : ∀ x ∈ Tree.bfs R, (keys x.payload.attrs).Nodup ∧ XClean (fun k => isDiffKey k = false) x ∧
-      ShortP x.payload ∧ TagOK x.payload)
+      ShortP w x.payload ∧ TagOK x.payload)
     (h : scriptGen qn cfg L R M fresh = .ok (script, final)) :
-    ∃ s' σ out after, runFmtE false bis qn (fstate0 L fresh ft [] w) script = .ok s' ∧
+    ∃ s' σ out after, runFmtE w bis qn (fstate0 L fresh ft [] w) script = .ok s' ∧
       (∃ N, ∀ f, N ≤ f → undoElement f s'.ph diffElemList s'.tree = .ok (out, after)) ∧
       MapId.InjOn σ (Tree.ids final) ∧ accFT out = setTailT none (MapId.mapId σ final) := by
   obtain ⟨s', σ, out, after, h1, h2, _, h4, h5, _⟩ := differ_script_output bis qn cfg L R M fresh script final ft w
@@ -53,13 +53,13 @@ theorem C09_differ_script_output (bis : Dmp.Bisect) (qn : QName) (cfg : Cfg) (L 
 /-- **Rejecting every change in the output gives the left document back** (structure, tags, texts). -/
 theorem C10_differ_script_output (bis : Dmp.Bisect) (qn : QName) (cfg : Cfg) (L R : Tree) (M : List (Nat × Nat))
     (fresh : Nat) (script : List Action) (final : Tree) (ft : List Str) (w : Bool)
-    (hclean : CleanT L) (hshort : Names.AllP ShortP L) (htag : Names.AllP TagOK L) (hL : (Tree.ids L).Nodup)
+    (hclean : CleanT L) (hshort : Names.AllP (ShortP w) L) (htag : Names.AllP TagOK L) (hL : (Tree.ids L).Nodup)
     (hRn : (Tree.ids R).Nodup) (hdisj : ∀ i ∈ Tree.ids L, i ∉ Tree.ids R)
     (hfL : ∀ i ∈ Tree.ids L, i < fresh) (hfR : ∀ i ∈ Tree.ids R, i < fresh) (hM : Chw.GoodMatching L R M)
     (hR : ∀ x ∈ Tree.bfs R, (keys x.payload.attrs).Nodup ∧ XClean (fun k => isDiffKey k = false) x ∧
-      ShortP x.payload ∧ TagOK x.payload)
+      ShortP w x.payload ∧ TagOK x.payload)
     (h : scriptGen qn cfg L R M fresh = .ok (script, final)) :
-    ∃ s' out after, runFmtE false bis qn (fstate0 L fresh ft [] w) script = .ok s' ∧
+    ∃ s' out after, runFmtE w bis qn (fstate0 L fresh ft [] w) script = .ok s' ∧
       (∃ N, ∀ f, N ≤ f → undoElement f s'.ph diffElemList s'.tree = .ok (out, after)) ∧
       rejFT out = setTailT none (bare L) := by
   obtain ⟨s', _, out, after, h1, h2, _, _, _, h6⟩ := differ_script_output bis qn cfg L R M fresh script final ft w
@@ -67,24 +67,25 @@ theorem C10_differ_script_output (bis : Dmp.Bisect) (qn : QName) (cfg : Cfg) (L 
   exact ⟨s', out, after, h1, h2, h6⟩
 
 /-- **C09 and C10 for the whole pipeline model** - `match()` with any similarity oracle `sim`, script generation,
-the XML formatter (no text tags, no `use_replace`, no `WS_TEXT`) with the text engine inside and any `diff_bisect`
+the XML formatter (no text tags, no `use_replace`; with `WS_TEXT` - `w = true` - for documents whose texts are in
+whitespace-normal form) with the text engine inside and any `diff_bisect`
 behaviour, `finalize`: the differ completes, every handler accepts its action, `finalize` succeeds for every
 sufficiently large fuel and returns a tree without placeholder characters whose accept-all projection equals the
 right document as a value (`docEq`: ids and attribute order aside, ignored attributes aside; root tail dropped) and
 whose reject-all projection is the left document without its attributes.  Hypotheses on the two documents only: `L`
 clean, both made of elements without wrapper tags with texts of at most 27000 characters without private-use
-characters, attribute names outside the `diff:` namespace and distinct per element, node ids of the two documents
+characters (whitespace-normal when `w = true`), attribute names outside the `diff:` namespace and distinct per element, node ids of the two documents
 distinct and below `fresh`. -/
 theorem C09_C10_pipeline (bis : Dmp.Bisect) (sim : Sim) (qn : QName) (cfg : Cfg) (L R : Tree) (fresh : Nat)
     (ft : List Str) (w : Bool) (hF : 0 < cfg.F)
-    (hclean : CleanT L) (hshort : Names.AllP ShortP L) (htag : Names.AllP TagOK L) (hkL : L.payload.kind = .elem)
+    (hclean : CleanT L) (hshort : Names.AllP (ShortP w) L) (htag : Names.AllP TagOK L) (hkL : L.payload.kind = .elem)
     (hL : (Tree.ids L).Nodup) (hRn : (Tree.ids R).Nodup) (hdisj : ∀ i ∈ Tree.ids L, i ∉ Tree.ids R)
     (hfL : ∀ i ∈ Tree.ids L, i < fresh) (hfR : ∀ i ∈ Tree.ids R, i < fresh)
     (hR : ∀ x ∈ Tree.bfs R, (keys x.payload.attrs).Nodup ∧ XClean (fun k => isDiffKey k = false) x ∧
-      ShortP x.payload ∧ TagOK x.payload) :
+      ShortP w x.payload ∧ TagOK x.payload) :
     ∃ script final s' out after,
       scriptGen qn cfg L R (matchNodes cfg sim L R) fresh = .ok (script, final) ∧
-      runFmtE false bis qn (fstate0 L fresh ft [] w) script = .ok s' ∧
+      runFmtE w bis qn (fstate0 L fresh ft [] w) script = .ok s' ∧
       (∃ N, ∀ f, N ≤ f → undoElement f s'.ph diffElemList s'.tree = .ok (out, after)) ∧
       Undo.PlainT s'.ph out ∧
       Chw.docEq cfg.ignored (accFT out) (setTailT none R) ∧ rejFT out = setTailT none (bare L) :=
@@ -96,14 +97,14 @@ example :
     let e : Payload := ⟨.elem, "a".toList, [], none, none⟩
     let L : Tree := .node 0 e []
     let R : Tree := .node 10 e []
-    CleanT L ∧ Names.AllP ShortP L ∧ Names.AllP TagOK L ∧ L.payload.kind = .elem ∧ (Tree.ids L).Nodup ∧
+    ∀ w : Bool, CleanT L ∧ Names.AllP (ShortP w) L ∧ Names.AllP TagOK L ∧ L.payload.kind = .elem ∧ (Tree.ids L).Nodup ∧
       (Tree.ids R).Nodup ∧ (∀ i ∈ Tree.ids L, i ∉ Tree.ids R) ∧ (∀ i ∈ Tree.ids L, i < 20) ∧ (∀ i ∈ Tree.ids R, i < 20) ∧
-      ∀ x ∈ Tree.bfs R, (keys x.payload.attrs).Nodup ∧ XClean (fun k => isDiffKey k = false) x ∧ ShortP x.payload ∧
+      ∀ x ∈ Tree.bfs R, (keys x.payload.attrs).Nodup ∧ XClean (fun k => isDiffKey k = false) x ∧ ShortP w x.payload ∧
         TagOK x.payload := by
-  intro e L R
+  intro e L R w
   have hlow : Undo.Low ([] : Str) := fun c hc => by cases hc
   have htok : TextOK (none : Option Str) := ⟨hlow, by simp⟩
-  have hsh : ShortP e := ⟨Nat.zero_le _, Nat.zero_le _⟩
+  have hsh : ShortP w e := ⟨Nat.zero_le _, Nat.zero_le _, fun _ => ⟨rfl, rfl⟩⟩
   have htg : TagOK e := by constructor <;> decide
   refine ⟨?_, ?_, ?_, rfl, by decide, by decide, by decide, by decide, by decide, ?_⟩
   · simp only [L, CleanT, CleanL, and_true]
